@@ -76,6 +76,12 @@ func parseConf(t reflect.Type, data interface{}) (name string, fillConf func(con
 		return
 	}
 	name = names[0]
+	if name == "" {
+		// plugin.New and plugin.NewFactory expect a non-empty name and panic otherwise: that is for
+		// programming errors, user data has to end in an error.
+		err = errors.Errorf("plugin %s should not be empty", PluginNameKey)
+		return
+	}
 	fillConf = func(conf interface{}) error {
 		if tag.Debug {
 			zap.L().Debug("Decoding plugin",
